@@ -76,6 +76,27 @@ func (x *fx) resolveType(name string, env *specEnv) types.Type {
 func (x *fx) parseTypeString(s string, pkg *types.Package) types.Type {
 	s = strings.TrimSpace(s)
 	switch {
+	case strings.HasPrefix(s, "func("):
+		depth, j := 0, 4
+		for ; j < len(s); j++ {
+			if s[j] == '(' {
+				depth++
+			} else if s[j] == ')' {
+				depth--
+				if depth == 0 {
+					break
+				}
+			}
+		}
+		var ps []*types.Var
+		for _, p := range splitTop(s[5:j]) {
+			ps = append(ps, types.NewVar(0, pkg, "", x.parseTypeString(p, pkg)))
+		}
+		var rs []*types.Var
+		if r := strings.TrimSpace(s[j+1:]); r != "" {
+			rs = append(rs, types.NewVar(0, pkg, "", x.parseTypeString(r, pkg)))
+		}
+		return types.NewSignatureType(nil, nil, nil, types.NewTuple(ps...), types.NewTuple(rs...), false)
 	case strings.HasPrefix(s, "[]"):
 		return types.NewSlice(x.parseTypeString(s[2:], pkg))
 	case strings.HasPrefix(s, "*"):
@@ -132,7 +153,7 @@ func (x *fx) eval(e *Expr, env *specEnv) *Val {
 				}
 			}
 		}
-		panic(specErr("unbound name " + e.Name))
+		panic(specErr("unbound name " + e.Name + x.dbgNames()))
 	case "old":
 		if env.old == nil {
 			return x.eval(e.Args[0], env)
@@ -140,7 +161,15 @@ func (x *fx) eval(e *Expr, env *specEnv) *Val {
 		o := *env.old
 		o.bound = env.bound
 		o.old = &o
-		return x.eval(e.Args[0], &o)
+		r := x.eval(e.Args[0], &o)
+		switch r.T.Underlying().(type) {
+		case *types.Slice, *types.Pointer:
+			// reads through an old(...) slice or pointer see the old memory
+			c := *r
+			c.M = o.mem
+			return &c
+		}
+		return r
 	case "cond":
 		c := x.evalBool(e.Args[0], env)
 		a, b := x.eval(e.Args[1], env), x.eval(e.Args[2], env)
@@ -199,7 +228,7 @@ func (x *fx) eval(e *Expr, env *specEnv) *Val {
 		if e.Args[2] != nil {
 			hi = x.toIdx(x.typed(x.eval(e.Args[2], env), tInt))
 		}
-		return &Val{T: rt, S: fmt.Sprintf("(mk-slice %s %s %s %s)", base, x.iadd(off, lo), x.isub(hi, lo), x.isub(cp, lo))}
+		return &Val{T: rt, S: fmt.Sprintf("(mk-slice %s %s %s %s)", base, x.iadd(off, lo), x.isub(hi, lo), x.isub(cp, lo)), M: s.M}
 	case "call":
 		return x.evalCall(e, env)
 	case "str":
@@ -269,9 +298,73 @@ func (x *fx) evalBin(e *Expr, env *specEnv) *Val {
 	return x.binop(op, a, b, a.T, false)
 }
 
+// firstIndexedBy finds the first sub-expression X[v] indexed by exactly the bound variable v.
+func firstIndexedBy(e *Expr, v string) *Expr {
+	if e == nil {
+		return nil
+	}
+	if e.Op == "index" && e.Args[1].Op == "id" && e.Args[1].Name == v {
+		if r := firstIndexedBy(e.Args[0], v); r != nil {
+			return r
+		}
+		return e.Args[0]
+	}
+	if (e.Op == "forall" || e.Op == "exists") && e.Name == v {
+		return nil
+	}
+	for _, a := range e.Args {
+		if r := firstIndexedBy(a, v); r != nil {
+			return r
+		}
+	}
+	return nil
+}
+
+func mentions(e *Expr, v string) bool {
+	if e == nil {
+		return false
+	}
+	if e.Op == "id" && e.Name == v {
+		return true
+	}
+	for _, a := range e.Args {
+		if mentions(a, v) {
+			return true
+		}
+	}
+	return false
+}
+
 func (x *fx) evalQuant(e *Expr, env *specEnv) *Val {
 	q := e.Op
-	bv := &Val{T: tInt, S: "|" + e.Name + "|"}
+	name := "|" + e.Name + "|"
+	bv := &Val{T: tInt, S: name}
+	bodyE := e.Args[len(e.Args)-1]
+	// choose the row offset of the first X[k] so that the bound variable is the absolute row index
+	if base := firstIndexedBy(bodyE, e.Name); base != nil && !mentions(base, e.Name) {
+		func() {
+			defer func() { recover() }()
+			b := x.eval(base, env)
+			var off string
+			switch u := b.T.Underlying().(type) {
+			case *types.Slice:
+				if arrScale(u.Elem()) == 1 {
+					off = slOff(b.S)
+				}
+			case *types.Basic:
+				if isString(b.T) {
+					off = slOff(b.S)
+				}
+			case *types.Pointer:
+				if a, ok := u.Elem().Underlying().(*types.Array); ok && arrScale(a.Elem()) == 1 && len(b.Path) == 0 {
+					off = ptrOff(b.S)
+				}
+			}
+			if off != "" {
+				bv = &Val{T: tInt, S: x.isub(name, off), AbsIdx: name, AbsOff: off}
+			}
+		}()
+	}
 	inner := env.withBound(e.Name, bv)
 	var body string
 	if len(e.Args) == 3 {
@@ -287,7 +380,16 @@ func (x *fx) evalQuant(e *Expr, env *specEnv) *Val {
 	} else {
 		body = x.evalBool(e.Args[0], inner)
 	}
-	return &Val{T: tBool, S: fmt.Sprintf("(%s ((%s %s)) %s)", q, bv.S, x.idxSort(), body)}
+	return &Val{T: tBool, S: fmt.Sprintf("(%s ((%s %s)) %s)", q, name, x.idxSort(), body)}
+}
+
+// rowIndex returns the absolute row index off+i, using the bound variable's
+// absolute form when the offsets agree.
+func (x *fx) rowIndex(off string, iv *Val) string {
+	if iv.AbsIdx != "" && iv.AbsOff == off {
+		return iv.AbsIdx
+	}
+	return x.iadd(off, x.toIdx(iv))
 }
 
 func (x *fx) evalField(e *Expr, env *specEnv) *Val {
@@ -336,6 +438,11 @@ func (x *fx) evalField(e *Expr, env *specEnv) *Val {
 		panic(specErr(fmt.Sprintf("%s: no field %s in %s", e, e.Name, t)))
 	}
 	ft := st.Field(idx).Type()
+	if isPtr && v.M != nil {
+		e2 := *env
+		e2.mem = v.M
+		env = &e2
+	}
 	if isPtr {
 		if len(v.Path) > 0 {
 			root := x.memRead(env.mem, x.fieldMemNameOf(v.Path[0]), ptrRef(v.S), ptrOff(v.S))
@@ -350,22 +457,33 @@ func (x *fx) evalField(e *Expr, env *specEnv) *Val {
 
 func (x *fx) evalIndex(e *Expr, env *specEnv) *Val {
 	s := x.eval(e.Args[0], env)
-	i := x.toIdx(x.typed(x.eval(e.Args[1], env), tInt))
+	iv := x.typed(x.eval(e.Args[1], env), tInt)
+	if s.M != nil {
+		e2 := *env
+		e2.mem = s.M
+		env = &e2
+	}
 	switch u := s.T.Underlying().(type) {
 	case *types.Slice:
-		return x.elemAt(env.mem, u.Elem(), slBase(s.S), x.iadd(slOff(s.S), i))
+		if arrScale(u.Elem()) != 1 {
+			return x.elemAt(env.mem, u.Elem(), slBase(s.S), x.iadd(slOff(s.S), x.toIdx(iv)))
+		}
+		return x.elemAt(env.mem, u.Elem(), slBase(s.S), x.rowIndex(slOff(s.S), iv))
 	case *types.Basic:
 		if isString(s.T) {
-			return &Val{T: tByte, S: x.memRead(env.mem, x.memName(tByte), slBase(s.S), x.iadd(slOff(s.S), i))}
+			return &Val{T: tByte, S: x.memRead(env.mem, x.memName(tByte), slBase(s.S), x.rowIndex(slOff(s.S), iv))}
 		}
 	case *types.Array:
-		return &Val{T: u.Elem(), S: fmt.Sprintf("(select %s %s)", s.S, i)}
+		return &Val{T: u.Elem(), S: fmt.Sprintf("(select %s %s)", s.S, x.toIdx(iv))}
 	case *types.Pointer:
 		if a, ok := u.Elem().Underlying().(*types.Array); ok {
 			if len(s.Path) > 0 {
 				panic(specErr("index through interior pointer"))
 			}
-			return x.elemAt(env.mem, a.Elem(), ptrRef(s.S), x.iadd(ptrOff(s.S), x.arrOff(i, a.Elem())))
+			if arrScale(a.Elem()) == 1 {
+				return x.elemAt(env.mem, a.Elem(), ptrRef(s.S), x.rowIndex(ptrOff(s.S), iv))
+			}
+			return x.elemAt(env.mem, a.Elem(), ptrRef(s.S), x.iadd(ptrOff(s.S), x.arrOff(x.toIdx(iv), a.Elem())))
 		}
 	}
 	panic(specErr(fmt.Sprintf("cannot index %s of type %s", e.Args[0], s.T)))
@@ -648,4 +766,16 @@ func (x *fx) applySpec(sf *SpecFn, args []*Expr, env *specEnv) *Val {
 		return &Val{T: rt, S: fname}
 	}
 	return &Val{T: rt, S: "(" + fname + " " + strings.Join(terms, " ") + ")"}
+}
+
+func (x *fx) dbgNames() string {
+	s := ""
+	for _, li := range x.loopList {
+		s += fmt.Sprintf(" [loop%d header=%d names:", li.ordinal, li.header.Index)
+		for k := range x.nameIn[li.header.Index] {
+			s += " " + k
+		}
+		s += "]"
+	}
+	return s
 }
